@@ -156,5 +156,8 @@ fn finish(m: &Merged, tier: Tier) -> Finish {
         "harness built with overflow-checks and debug-assertions on (profile verif): a wrapping integer operation in reval traps and is observed as a panic; the thorough tier repeats the run in plain release where it is observed as a wrapped value".into(),
         "process-level aborts (stack overflow) are observed by the driver through the shard's exit status".into(),
     ];
+    if tier == Tier::Thorough && crate::core::profile_name() == "verif" {
+        crate::fuzzleg::attach(&mut f, "C01", 150);
+    }
     f
 }
